@@ -4,4 +4,4 @@ import supcheck
 
 
 def run(ctx):
-    supcheck.run(ctx, "C01", kinds="deps,api", n_quick=120, n_thorough=1600)
+    supcheck.run(ctx, "C01", kinds="deps,api,skipchain", n_quick=150, n_thorough=1600)
